@@ -35,6 +35,9 @@ def arg_patterns(rng, d, nargs, n):
     return out
 
 
+FRACNUM = []
+
+
 def run(ctx):
     rng, q = ctx.rng, ctx.quick
     for cfg, what in (('mc/MC_Kingdon_seq_ordered.cfg', 'registered functions resolve callees by name at call time: DispatchExact over all histories'),):
@@ -124,6 +127,17 @@ def run(ctx):
                 trees.append(('gp', [('coef', [('arg', 1)], [nm], 'method'), ('arg', nargs)], [], 'infix'))
             if q:
                 trees = rng.sample(trees, min(len(trees), 70 if d == 2 else 45))
+            if nargs == 1 and d == 2:
+                # a plain number added to / subtracted from a FRACTION-valued subexpression (inverse, quotient, negative power),
+                # on either side: the code-generation symbols must add k * denominator, not k, to the numerator
+                X = ('arg', 1)
+                fr = [('inv', [X], [], 'method'), ('pow', [X], [-2], 'infix'), ('div', [('reverse', [X], [], 'infix'), X], [], 'infix')]
+                FRACNUM.clear()
+                for f in fr:
+                    for k in (2, -3):
+                        FRACNUM.extend([('add', [f, ('num', k)], [], 'infix'), ('add', [('num', k), f], [], 'infix'),
+                                        ('sub', [f, ('num', k)], [], 'infix'), ('sub', [('num', k), f], [], 'infix')])
+                trees += rng.sample(FRACNUM, 8 if q else len(FRACNUM))
             if nargs == 1:
                 # a dual directly followed by an undual of the same or of another kind (and vice versa), all spellings
                 chains = PR.dual_chains(polarity=(0 not in u['sig'] and u['r'] == 0))
@@ -141,6 +155,9 @@ def run(ctx):
                     progs['h'] = {'tree': ('gp', [('arg', 1), ('arg', 1)], [], 'infix'), 'nargs': 1, 'symbolic': False, 'pyname': 'h'}
                     progs['hc'] = {'tree': ('callreg', [('reverse', [('arg', 1)], [], 'infix')], ['h'], 'method'), 'nargs': 1, 'symbolic': False, 'pyname': 'hc'}
                     for name, pd in progs.items():
+                        if pd['tree'] in FRACNUM:       # operands with a scalar part (the inverse then has one too)
+                            for pats in ([(0, 3)], [(3, 0)], [(0, 1, 2, 3)]):
+                                hist.append({'t': 'T1', 'kind': 'prog', 'op': name, 'args': pats, 'params': [], 'mode': 'num'})
                         for pats in arg_patterns(rng, d, pd['nargs'], 2 if q else 3):
                             hist.append({'t': 'T1', 'kind': 'prog', 'op': name, 'args': pats, 'params': [], 'mode': 'num'})
                             if rng.random() < 0.3:      # same blades, other storage order
